@@ -30,12 +30,12 @@ def check(ctx):
     ctx.floor("twin_pairs", 3)
     # ---------------- axis bookkeeping that exists once (not in the expression engine)
     import ast as _ast
-    from ..lib import find, returns, unparse, walk_no_nested
+    from ..lib import find, returns, unparse, walk_no_nested, eqv
     nc = ctx.model.module("dask/array/numpy_compat.py").func("moveaxis")
     loops = [l for l in walk_no_nested(nc) if isinstance(l, _ast.For)]
-    ok = len(loops) == 1 and unparse(loops[0].target) == "(dest, src)" and unparse(loops[0].iter) == "sorted(zip(destination, source))" and bool(find("order.insert(dest, src)", loops[0])) and bool(find("order = [n for n in range(a.ndim) if n not in source]", nc))
+    ok = len(loops) == 1 and eqv(loops[0].target, "(dest, src)") and eqv(loops[0].iter, "sorted(zip(destination, source))") and bool(find("order.insert(dest, src)", loops[0])) and bool(find("order = [n for n in range(a.ndim) if n not in source]", nc))
     ctx.ob("ALG.moveaxis", nc, "moveaxis: the moved axes are re-inserted in ascending DESTINATION order (for dest, src in sorted(zip(destination, source)))", ok, "" if ok else "inserting in another order shifts the positions of later insertions: several axes moved at once end up in the wrong places")
-    ok = any(unparse(r.value) == "result" for r in returns(nc)) and bool(find("result = a.transpose(order)", nc))
+    ok = any(eqv(r.value, "result") for r in returns(nc)) and bool(find("result = a.transpose(order)", nc))
     ctx.ob("ALG.moveaxis.apply", nc, "moveaxis = a.transpose(order)", ok)
     ed = ctx.model.module("dask/array/routines.py").func("expand_dims")
     ok = bool(find("shape = [1 if ax in axis else next(shape_it) for ax in range(out_ndim)]", ed)) and bool(find("shape_it = iter(a.shape)", ed)) and bool(find("axis = validate_axis(axis, out_ndim)", ed)) and bool(find("out_ndim = len(axis) + a.ndim", ed))
